@@ -19,8 +19,8 @@ pub const SPEC: PropSpec = PropSpec {
 	assumptions: &[
 		"reference decoder and the expectation table (engine/src/refavro/expect.rs) follow the Avro specification; outcomes the statement does not pin are classified Unspecified and only checked for decodability",
 	],
-	cases: (150_000, 6_000_000),
-	secs: (40, 600),
+	cases: (50_000_000, 4_000_000_000),
+	secs: (30, 600),
 	required: &["outcome:ok-exact", "outcome:err-as-required", "cells_hit"],
 	run_case,
 	once: None,
